@@ -144,7 +144,9 @@ econf_err getDoubleValueNum(econf_file key_file, size_t num, double *result) {
     return ECONF_KEY_HAS_NULL_VALUE;
   errno = 0;
   *result = strtod(key_file.file_entry[num].value, &endptr);
-  if (endptr == key_file.file_entry[num].value || errno == ERANGE || (errno != 0 && *result == 0))
+  /* ERANGE is no error: it is also set for subnormal numbers, which are
+     valid values (econf_setDoubleValue writes them). See getFloatValueNum. */
+  if (endptr == key_file.file_entry[num].value)
     return ECONF_VALUE_CONVERSION_ERROR;
   return ECONF_SUCCESS;
 }
